@@ -23,6 +23,8 @@ type c07Case struct {
 	StaleDemo bool `json:"staleDemo,omitempty"`
 	// ExitDelayMs: the supervisor reports the exit of a role's processes this long after their death (0-2 roles)
 	ExitDelayMs map[string]int `json:"exitDelayMs,omitempty"`
+	// ExecLagMs: the supervisor's Exec of a role returns this long after the process started (0-1 roles)
+	ExecLagMs map[string]int `json:"execLagMs,omitempty"`
 }
 
 type c07Stage struct {
@@ -34,7 +36,7 @@ type c07Stage struct {
 const c07Tail = 3
 
 func (c *c07Case) scenario() *Scenario {
-	sc := &Scenario{Config: Config{TimeoutMs: int64(c.T), TimeoutEnvS: 9, ExitEventDelayMs: c.ExitDelayMs}, Actors: map[string][]Script{}, BudgetS: 90, SelectBy: "stage"}
+	sc := &Scenario{Config: Config{TimeoutMs: int64(c.T), TimeoutEnvS: 9, ExitEventDelayMs: c.ExitDelayMs, ExecReturnLagMs: c.ExecLagMs}, Actors: map[string][]Script{}, BudgetS: 90, SelectBy: "stage"}
 	names := []string{"e1", "e2"}
 	for i := 0; i < c.NExt; i++ {
 		sc.Config.ExtDir = append(sc.Config.ExtDir, DirEntry{Name: names[i], Kind: "file"})
@@ -152,6 +154,10 @@ func c07Check(c c07Case) (out kit.Outcome) {
 		}
 	}
 	_ = slowSup
+	for r, d := range c.ExecLagMs {
+		out.Label("exec-return-lag:" + r)
+		bound += float64(d * (len(c.Stages) + c07Tail + 1))
+	}
 	timeoutText := "Task timed out after 9.00 seconds"
 	check := func(tag string) (ok bool, failed bool) {
 		iss, ret := tr.invokeIssue(tag), tr.invokeReturn(tag)
@@ -384,6 +390,10 @@ func c07Gen(t *rapid.T) c07Case {
 		roles := []string{"runtime", "ext:e1", "ext:e2"}[:1+c.NExt]
 		c.ExitDelayMs[rapid.SampledFrom(roles).Draw(t, "delayRole")] = rapid.SampledFrom([]int{150, 600, 2300}).Draw(t, "delayMs")
 	}
+	if rapid.IntRange(0, 5).Draw(t, "laggingExec") == 0 {
+		roles := []string{"runtime", "ext:e1", "ext:e2"}[:1+c.NExt]
+		c.ExecLagMs = map[string]int{rapid.SampledFrom(roles).Draw(t, "lagRole"): rapid.SampledFrom([]int{2, 5, 30}).Draw(t, "lagMs")}
+	}
 	return c
 }
 
@@ -399,6 +409,10 @@ func c07Fixed() []c07Case {
 			Exts:    [][]Step{{{Op: "ext.register", Events: []string{"INVOKE", "SHUTDOWN"}}, {Op: "ext.next"}, {Op: "stall"}}},
 			OnTerm:  []string{"", "ignore"}}}},
 		// a slow supervisor: the exit of the runtime killed by the timeout reset is reported 2.3 s after its death
+		// an extension that exits at once, reported dead before the supervisor's Exec has returned; then a runtime doing the same
+		{NExt: 1, Subs: [][]string{{"SHUTDOWN"}}, T: 300, ExecLagMs: map[string]int{"ext:e1": 5}, Stages: []c07Stage{{
+			Runtime: []Step{{Op: "rt.next"}, {Op: "rt.response", ID: "cur", BodyMode: "transform"}}, Exts: [][]Step{{{Op: "exit", Code: 2}}}, OnTerm: []string{"", ""}}}},
+		{NExt: 0, T: 300, ExecLagMs: map[string]int{"runtime": 5}, Stages: []c07Stage{{Runtime: []Step{{Op: "exit", Code: 3}}}}},
 		{NExt: 0, T: 300, ExitDelayMs: map[string]int{"runtime": 2300}, Stages: []c07Stage{{Runtime: []Step{{Op: "rt.next"}, {Op: "stall"}}}}},
 		{NExt: 0, T: 300, Stages: []c07Stage{{Runtime: []Step{{Op: "rt.next"}, {Op: "rt.response", ID: "garbage", BodyMode: "lit", Lit: "x"}, {Op: "rt.next", Async: true, Tag: "dup"}, {Op: "rt.response", ID: "cur", BodyMode: "transform"}, {Op: "exit", Code: 0}}}}},
 	}
